@@ -167,8 +167,10 @@ func isFieldOptional(f reflect.StructField) (bool, error) {
 
 	optional, err := strconv.ParseBool(tag)
 	if err != nil {
+		// The parse error goes into the message rather than the chain:
+		// RootCause of a failure that originates in dig must be a dig.Error.
 		err = newErrInvalidInput(
-			fmt.Sprintf("invalid value %q for %q tag on field %v", tag, _optionalTag, f.Name), err)
+			fmt.Sprintf("invalid value %q for %q tag on field %v: %v", tag, _optionalTag, f.Name, err), nil)
 	}
 
 	return optional, err
